@@ -487,4 +487,61 @@ class C11e(Obligation):
             ctx.check(ctx.implies(ctx.Not(both), out.value == sig + doc), 'only one of them: that one alone')
 
 
-OBLIGATIONS = [C11a, C11b, C11d, C11e, C11f]
+from jedi.inference.names import _ActualTreeParamName  # noqa: E402
+
+from obligations.c06 import Op  # noqa: E402
+
+
+class ParamLeaf:
+    type = 'param'
+
+    def __init__(self, name, star_count):
+        self.name = Obj(value=name)
+        self.star_count = star_count
+        self.parent = None
+
+
+class C11c(Obligation):
+    id = 'C11.c'
+    title = 'parameter kinds derived from the tree equal Python\'s kinds (/, bare *, *args, **kwargs)'
+    pattern = 'P1 kernel vs reference (inverse of the rendering: build the parameter list from kinds)'
+    assumptions = (
+        'every valid kind sequence up to P parameters is laid out as parso does (param nodes with "/" and bare "*" '
+        'operator leaves and commas between them); names do not start with "__" (typeshed convention, documented)',
+    )
+
+    def configs(self, tier):
+        return [dict(P=p) for p in (range(1, 5) if tier == 'quick' else range(1, 7))]
+
+    def scenario(self, ctx, cfg):
+        P = cfg['P']
+        kinds = ctx.oneof('kinds', valid_kind_sequences(P))
+        which = ctx.choice('asked_parameter', P)
+        ctx.int('unused')
+        children = []
+        params = []
+        has_vp = VP in kinds
+        for i, k in enumerate(kinds):
+            if k == KO and not has_vp and (i == 0 or kinds[i - 1] not in (KO,)):
+                children.append(Op('*'))
+                children.append(Op(','))
+            p = ParamLeaf('p%d' % i, 1 if k == VP else 2 if k == VK else 0)
+            params.append(p)
+            children.append(p)
+            children.append(Op(','))
+            if k == PO and (i + 1 == P or kinds[i + 1] != PO):
+                children.append(Op('/'))
+                children.append(Op(','))
+        parent = Obj(children=children)
+        for p in params:
+            p.parent = parent
+        name = _ActualTreeParamName.__new__(_ActualTreeParamName)
+        name._get_param_node = lambda: params[which]
+        ctx.force(_ActualTreeParamName.get_kind)
+        out = ctx.call(name.get_kind)
+        ctx.check(out.exc is None, 'never raises')
+        if out.exc is None:
+            ctx.check(out.value == kinds[which], 'the kind read from the tree is the kind the definition gives the parameter')
+
+
+OBLIGATIONS = [C11a, C11b, C11c, C11d, C11e, C11f]
